@@ -206,6 +206,9 @@ def run(tier, seed):
 
     def one(t):
         name, desc, params, opts, inst, kbd, keys = t
+        if os.environ.get("C09_SKIP_MC"):      # development aid: only the recorded-trace part (sched + random)
+            return {"name": inst["name"], "states": 0, "generated": 0, "tlc_wall_s": 0, "wall_s": 0,
+                    "monerr_file": "/nonexistent", "panic_file": "/nonexistent"}
         # one work directory per instance: two TLC runs go on at a time
         return mc.check_instance(inst, workdir("c09/" + name), workers=6, timeout=1700)
 
